@@ -582,13 +582,17 @@ def oracle(case, obs):
     return None
 
 
+_FAILURE_KEYS = [_str_tag(k) for k in ("reason", "exception", "message", "task_level", "timestamp")]
+
+
 def _is_failure_msg(t):
+    """An eliot:destination_failure report (C08) the file destination is offered after it failed.
+    Recognised by its field names: global fields may overwrite its message_type, and generated
+    messages never carry these names."""
     if t[0] != "o":
         return False
-    for k, v in t[1]:
-        if k == ["s", [ord(c) for c in "message_type"]] and v == _str_tag(FAILURE_TYPE):
-            return True
-    return False
+    keys = [k for k, _ in t[1]]
+    return all(k in keys for k in _FAILURE_KEYS)
 
 
 def _has_failure(obs):
